@@ -24,7 +24,9 @@ Inductive squery :=
 (* Transform.replace_range(from, to, slice): the step it records *)
 | QReplaceRange (from to : nat) (sl : slice)
 (* structure.drop_point(doc, pos, slice) *)
-| QDropPoint (pos : nat) (sl : slice).
+| QDropPoint (pos : nat) (sl : slice)
+(* structure.can_split(doc, pos, depth, types_after) *)
+| QCanSplitTA (pos depth : nat) (ta : list (nat * attrs)).
 
 Inductive sanswer :=
 | ABool (b : bool)
@@ -79,6 +81,7 @@ Definition model_answer (s : schema) (doc : node) (q : squery) : sanswer :=
   | QDeleteRange from to => run_planned s doc (delete_range_step s doc from to)
   | QReplaceRange from to sl => of_res AOptStep (replace_range_step s doc from to sl)
   | QDropPoint pos sl => of_res AOptNat (drop_point s doc pos sl)
+  | QCanSplitTA pos depth ta => of_res ABool (can_split_ta s doc pos depth ta)
   end.
 
 Inductive opcase :=
